@@ -28,6 +28,7 @@ def step (line : String) : String :=
     | "relay" => relayCmd args
     | "frame" => frameCmd args
     | "udpq" => udpqCmd args
+    | "udpl" => udplCmd args
     | "tcpconc" => tcpconcCmd args
     | "framerelay" => framerelayCmd args
     | "binframe" => binframeCmd args
